@@ -85,6 +85,38 @@ def one(sid, rnd, nx, gens):
     return s.done()
 
 
+def late_exit(sid, with_ext, when):
+    """a process that does not go away in time: the exit notification of the killed runtime (and extension) of the
+    first generation comes 2.6 s after the Kill - after the 2 s the reset waits for it.  The reset gives up waiting; the
+    notification arrives later (when == "idle": while nothing is going on; "busy": during the next invocation) and
+    must not bring the emulator down: at most one further invocation fails, the one after it is served"""
+    exts = ["e1"] if with_ext else []
+    subs = {e: ["INVOKE"] for e in exts}
+    s = Scn(sid, ext=exts, timeout_ms=300, opWaitMs=9000, exitLagMs=2600, exitLagGens=1,
+            onTerm={"runtime": "ignore", "e1": "ignore"})
+    s.meta(family="chaos", kind="late-exit", ext=with_ext, when=when)
+    tags = s.boot(subs)
+    it = s.invoke(size=4, seed=1)
+    s.wait(tags["rt"])
+    for e in exts:
+        s.wait(tags["ext:" + e])
+    s.wait(it)                      # times out; the reset's wait for the exits times out as well
+    if when == "idle":
+        s.sleep(1200)               # the late notifications arrive
+    # the flushing invocation: may fail
+    m = s.mark()
+    it = s.invoke(size=5, seed=2)
+    for e in exts:
+        s.await_exec(base=e, since=m, soft_ms=700)
+    s.await_exec(kind="rt", since=m, soft_ms=700)
+    s.wait(it)
+    if when == "busy":
+        s.sleep(1200)
+    # the one after it is served
+    s.recover(subs)
+    return s.done()
+
+
 def scenarios(ctx):
     rnd = random.Random(ctx.seed * 7 + 7)
     n = 40 if ctx.quick else 400
@@ -96,7 +128,7 @@ def run(ctx):
     # E1: the property predicates as invariants of the composite (spec/MC_Rapid.tla)
     mcrapid.check(ctx, ['NoCrash'])
     ctx.assumptions += sc.ASSUME
-    sc.run_families(ctx, scenarios(ctx), "chaos", require_done=True)
+    sc.run_families(ctx, scenarios(ctx) + [late_exit("c07-late1", False, "idle"), late_exit("c07-late2", True, "idle"), late_exit("c07-late3", False, "busy")], "chaos", require_done=True)
     # environment programs generated by TLC: simulated behaviours of spec/MC_Rapid.tla (with and without API misuse,
     # bounds beyond the exhaustive configurations) turned into scripts (lib/mcsim.py) and run on the real stack
     n = 10 if ctx.quick else 120
